@@ -197,16 +197,34 @@ def run(rep):
     pa = [x.arg for x in nn.args.args]
     npaths = [p_ for p_ in pq.PEval().run(nn) if p_.how == "return"]
     okm = bool(npaths) and len(pa) == 2
+    detm, undm = "", None
+
+    def _series(x):
+        ma = pq.mentions(x, lambda e: e == ('sym', pa[0]))
+        mb = pq.mentions(x, lambda e: e == ('sym', pa[1]))
+        return pa[0] if (ma and not mb) else pa[1] if (mb and not ma) else None
     for p_ in npaths:
         v = p_.value
-        ok1 = isinstance(v, tuple) and v[0] == 'tuple' and len(v[1]) == 2 and all(pq.call_named(x, "getitem") for x in v[1])
-        if ok1:
-            (b0, m0), (b1, m1) = v[1][0][2], v[1][1][2]
-            ok1 = b0 == ('sym', pa[0]) and b1 == ('sym', pa[1]) and pq.same(m0, m1) and \
-                (pq.same(m0, f"pd.notnull({pa[0]}) & pd.notnull({pa[1]})") or pq.same(m0, f"np.isfinite({pa[0]}) & np.isfinite({pa[1]})") or
-                 pq.same(m0, f"~pd.isnull({pa[0]}) & ~pd.isnull({pa[1]})") or pq.same(m0, f"~np.isnan({pa[0]}) & ~np.isnan({pa[1]})"))
-        okm = okm and ok1
-    rep.check(okm, "R04.a", rel, "__nonulldata", "returns both series indexed by the same mask notnull(a) & notnull(b)", "", line=nn.lineno)
+        if not (isinstance(v, tuple) and v[0] == 'tuple' and len(v[1]) == 2 and all(pq.call_named(x, "getitem") for x in v[1])):
+            undm = f"returned value is not a pair of row selections: {show(v)[:80]}"
+            continue
+        (b0, s0), (b1, s1) = v[1][0][2], v[1][1][2]
+        if not (b0 == ('sym', pa[0]) and b1 == ('sym', pa[1])):
+            okm, detm = False, f"selections of {show(b0)[:30]} and {show(b1)[:30]} instead of the two arguments"
+            continue
+        tabs = [pq.mask_table(pq.selector_mask(sx), _series, {pa[0]: 1, pa[1]: 1}) for sx in (s0, s1)]
+        if any(val is None for t_ in tabs for val in t_.values()):
+            undm = f"mask outside the valid / missing vocabulary: {show(s0)[:80]}"
+            continue
+        for t_ in tabs:
+            for asg, val in t_.items():
+                want = all(vv for _k, vv in asg)
+                if val != want:
+                    okm, detm = False, f"a pair is {'kept' if val else 'dropped'} when {dict(asg)}"
+    if undm and okm:
+        rep.undecided("R04.a", rel, "__nonulldata", "returns both series filtered by the mask valid(a) & valid(b)", undm, line=nn.lineno)
+    else:
+        rep.check(okm, "R04.a", rel, "__nonulldata", "returns both series filtered by the mask valid(a) & valid(b) (truth table over valid / missing)", detm, line=nn.lineno)
 
     # ---------------- binary ----------------------------------------------------------------------------------------------
     f = mod.func("binary")
